@@ -185,7 +185,7 @@ def run(ctx):
     if group == 0:
         for e in common.corpus(ID):
             check_text(ctx, e["text"], tags=["corpus"])
-    total = BUDGET[ctx.tier]
+    total = ctx.scaled(BUDGET[ctx.tier])
     for i in range(total):
         if i % groups != group:
             continue
